@@ -213,44 +213,20 @@ Definition lookup (h : N -> N) (tab : list (option entry)) (id : N) : option ent
   | _ => None
   end.
 
-(* the lookup loop stops no later than the insertion loop: it is total and in bounds whenever that one is *)
-Lemma probe_get_total tab id : forall fuel idx,
-  ((exists p, probe nx fuel tab id idx = PFound p) \/ (exists p, probe nx fuel tab id idx = PEmpty p)) ->
-  (exists p, probe_get nx fuel tab id idx = PFound p) \/ (exists p, probe_get nx fuel tab id idx = PEmpty p).
-Proof.
-  induction fuel; intros idx H; cbn [probe probe_get] in *.
-  - destruct H as [[p H]|[p H]]; discriminate.
-  - destruct (tget tab (N.to_nat idx)) as [[[j v]|]|].
-    + destruct (j =? id); cbn [orb]; eauto. destruct (j =? 0); eauto.
-    + eauto.
-    + destruct H as [[p H]|[p H]]; discriminate.
-Qed.
-
-(* without a dictID-0 entry the two loops are the same loop *)
-Definition nozero tab : Prop := forall p i v, tget tab p = Some (Some (i, v)) -> i <> 0.
-
-Lemma probe_get_nozero tab id : nozero tab -> forall fuel idx, probe_get nx fuel tab id idx = probe nx fuel tab id idx.
-Proof.
-  intros Z. induction fuel; intros idx; cbn [probe probe_get]; auto.
-  destruct (tget tab (N.to_nat idx)) as [[[j v]|]|] eqn:E; auto.
-  apply Z in E. destruct (N.eqb_spec j 0); [congruence|]. rewrite orb_false_r. rewrite IHfuel. reflexivity.
-Qed.
-
 Lemma get_total h s id :
   shape s -> (count_some (hs_tab s) < length (hs_tab s))%nat -> exists r, get h next_fixed s id = HOk r.
 Proof.
-  intros (S1 & S2 & S3) C. unfold get. rewrite S1. fold nx. fold (start h id).
-  destruct (probe_get_total (hs_tab s) id (N.to_nat size) (start h id)
-              (probe_total (hs_tab s) id (start h id) S2 C (get_index_lt h lg id))) as [[p P]|[p P]];
+  intros (S1 & S2 & S3) C. unfold get. destruct (id =? 0); [eauto|]. rewrite S1. fold nx. fold (start h id).
+  destruct (probe_total (hs_tab s) id (start h id) S2 C (get_index_lt h lg id)) as [[p P]|[p P]];
     rewrite P; eauto.
 Qed.
 
+(* since fix d50580e the lookup loop is the insertion loop: a stored dictID-0 entry is a regular entry *)
 Lemma get_lookup h s id :
-  shape s -> (count_some (hs_tab s) < length (hs_tab s))%nat -> nozero (hs_tab s) ->
+  shape s -> (count_some (hs_tab s) < length (hs_tab s))%nat -> id <> 0 ->
   get h next_fixed s id = HOk (lookup h (hs_tab s) id).
 Proof.
-  intros (S1 & S2 & S3) C Z. unfold get, lookup. rewrite S1. fold nx. fold (start h id).
-  rewrite probe_get_nozero by auto.
+  intros (S1 & S2 & S3) C Z. unfold get, lookup. destruct (N.eqb_spec id 0); [congruence|]. rewrite S1. fold nx. fold (start h id).
   destruct (probe_total (hs_tab s) id (start h id) S2 C (get_index_lt h lg id)) as [[p P]|[p P]];
     rewrite P; auto.
 Qed.
@@ -496,17 +472,12 @@ Proof.
 Qed.
 
 Lemma inv_get h s l id :
-  inv h s (fun id => spec_get l id None) -> Forall (fun e => fst e <> 0) l ->
+  inv h s (fun id => spec_get l id None) -> id <> 0 ->
   get h next_fixed s id = HOk (spec_get l id None).
 Proof.
   intros (lg & G & S & R & C & L) NZ. rewrite <- L.
   destruct (pow2_ge64 lg G) as (k & K & K16). pose proof S as (S1 & S2 & S3).
-  apply get_lookup; auto; [lia|].
-  intros p i v H.
-  assert (H' : tget (hs_tab s) (N.to_nat (N.of_nat p)) = Some (Some (i, v))) by (rewrite Nat2N.id; auto).
-  pose proof (reach_lookup lg h _ _ _ _ R H') as LK. rewrite L in LK.
-  apply spec_get_In in LK. destruct LK as [LK|LK]; [|discriminate].
-  rewrite Forall_forall in NZ. apply NZ in LK. exact LK.
+  apply get_lookup; auto. lia.
 Qed.
 
 (* ------------------------------------------------------------------ theorems *)
@@ -524,14 +495,18 @@ Proof.
   split; [lia|]. split; [congruence|]. intros id. eapply inv_get_total; eauto.
 Qed.
 
-(* ... and for non-zero dictIDs the set is the finite map dictID -> DDict, last insertion wins. *)
+(* ... and for every searched dictID other than 0 the set is the finite map dictID -> DDict, last insertion wins - whatever
+   dictIDs were stored, 0 (raw-content dictionaries) included (since fix d50580e); a frame that names no dictionary selects nothing. *)
 Theorem ddict_hashset_finite_map : forall (h : N -> N) (l : list entry) (s : hset) (id : N),
-  Forall (fun e => fst e <> 0) l ->
+  id <> 0 ->
   add_all h next_fixed l create = HOk s -> get h next_fixed s id = HOk (spec_get l id None).
 Proof.
   intros h l s id NZ E. destruct (add_all_spec h l create _ (create_inv h)) as (s' & E' & I).
   rewrite E in E'. inversion E'; subst. apply inv_get; auto.
 Qed.
+
+Theorem ddict_hashset_get_zero : forall (h : N -> N) (s : hset), get h next_fixed s 0 = HOk None.
+Proof. reflexivity. Qed.
 
 (* Before fix 504f7c2 (idx &= mask; idx++): two dictIDs whose XXH64 falls in the last slot of the 64-entry table
    make the second insertion read ddictPtrTable[64]. *)
@@ -548,14 +523,15 @@ Example ddict_hashset_wrap_example :
   end.
 Proof. vm_compute. auto. Qed.
 
-(* The lookup loop as written ("currDictID == dictID || currDictID == 0") treats a stored raw-content DDict
+(* The lookup loop before fix d50580e ("currDictID == dictID || currDictID == 0") treated a stored raw-content DDict
    (dictID 0) like an empty slot: dictIDs 0 and 26 share slot 52 of the 64-entry table, and after inserting both
-   the lookup of 26 returns the dictID-0 DDict (handle 7), not the DDict 26 stored in the next slot.  In bounds and
-   terminating, but not the finite map - which is why [ddict_hashset_finite_map] assumes non-zero dictIDs. *)
+   the old lookup of 26 returned the dictID-0 DDict (handle 7), not the DDict 26 stored in the next slot; the current one
+   returns DDict 26. *)
 Example ddict_hashset_id0_shadows :
   get_index xxh_hash 64 0 = 52 /\ get_index xxh_hash 64 26 = 52 /\
   match add_all xxh_hash next_fixed [(0, 7); (26, 1)] create with
-  | HOk s => tget (hs_tab s) 53 = Some (Some (26, 1)) /\ get xxh_hash next_fixed s 26 = HOk (Some (0, 7))
+  | HOk s => tget (hs_tab s) 53 = Some (Some (26, 1)) /\ get_old xxh_hash next_fixed s 26 = HOk (Some (0, 7)) /\
+             get xxh_hash next_fixed s 26 = HOk (Some (26, 1)) /\ get xxh_hash next_fixed s 0 = HOk None
   | _ => False
   end.
-Proof. vm_compute. auto. Qed.
+Proof. vm_compute. repeat split; reflexivity. Qed.
